@@ -104,6 +104,23 @@ Proof.
   split; [symmetry; apply text_eqb_eq; exact E1 | split; assumption].
 Qed.
 
+Fixpoint all_some {A} (l : list (option A)) : option (list A) :=
+  match l with
+  | [] => Some []
+  | Some x :: r => match all_some r with Some xs => Some (x :: xs) | None => None end
+  | None :: _ => None
+  end.
+
+Lemma all_some_canon : forall ds ts, all_some (map canon ds) = Some ts -> ds = map print3 ts /\ Forall good ts.
+Proof.
+  induction ds as [|d r IH]; intros ts H; cbn [map all_some] in H.
+  - inversion H; subst. split; [reflexivity|constructor].
+  - destruct (canon d) as [t|] eqn:Ec; [|discriminate].
+    destruct (all_some (map canon r)) as [xs|] eqn:Er; [|discriminate]. inversion H; subst ts.
+    apply canon_spec in Ec. destruct Ec as [E G]. destruct (IH xs eq_refl) as [E' G'].
+    split; [cbn [map]; rewrite <- E, <- E'; reflexivity | constructor; assumption].
+Qed.
+
 (* ---------------------------------------------------------------------------------------------- *)
 (* induction principle for legacy trees (nested list in E1Call) *)
 
@@ -305,7 +322,11 @@ Definition pm_tree (m : pmig) (t : e3) : option e3 :=
       | Some z => if decremented_keeps_negative && (z <? 0)%Z then Some t else Some (dec_tree (int64_pred z))
       | None => Some (X3Bin OSub (wrap t 4) num_1)
       end
-  | PBySpaces => canon (param_by_spaces (print3 t))
+  | PBySpaces =>
+      let l := trim_space (lower (print3 t)) in
+      if text_eqb l t_true then canon t_space_tab
+      else if text_eqb l t_false then Some X3Null
+      else Some (call3 [105; 102] [t; X3Text t_space_tab; X3Null])
   end.
 
 Lemma pm_tree_ok m t t' : good t -> pm_tree m t = Some t' -> apply_pm m (print3 t) = print3 t' /\ good t'.
@@ -319,7 +340,15 @@ Proof.
     + inversion H; subst t'. change prec_addition with 4%nat. rewrite as_operand_print by assumption. split.
       * cbn [print3 num_1 op_text]. unfold t_minus_one. norm_app. reflexivity.
       * apply good_bin; [apply good_wrap; assumption | split; reflexivity | apply (wrap_lvl t 4); lia | cbn; lia].
-  - apply canon_spec in H. exact H.
+  - unfold param_by_spaces. cbv zeta in H.
+    destruct (text_eqb (trim_space (lower (print3 t))) t_true).
+    + apply canon_spec in H. exact H.
+    + destruct (text_eqb (trim_space (lower (print3 t))) t_false).
+      * inversion H; subst t'. split; [reflexivity | split; reflexivity].
+      * inversion H; subst t'. split.
+        -- rewrite print3_call3. cbn [map print3]. unfold render_call, t_if_open, t_byspaces_close, t_space_tab, t_NULL, comma_space.
+           cbn [join]. norm_app. reflexivity.
+        -- apply good_call3; [reflexivity|]. repeat (constructor; try assumption); split; reflexivity.
 Qed.
 
 Fixpoint params_tree (pms : list pmig) (old : list e3) (defaults : list text) : option (list e3) :=
@@ -628,17 +657,16 @@ Definition tmpl_closed (f : text) (precs : list nat) : Prop :=
     forall ts, length ts = tmpl_arity f -> sprintf f (map print3 ts) = print3 (subst ts s).
 
 Lemma tmpl_ok f precs ts t :
-  tmpl_closed f precs -> Forall good ts -> tmpl_tree f precs ts = Some t ->
-  (if Nat.ltb (length (map print3 ts)) (count_sub t_pct_s f + count_sub t_pct_v f) then []
-   else sprintf f (operands_of (map print3 ts) precs)) = print3 t /\ good t.
+  tmpl_closed f precs -> num_template_params f = tmpl_arity f -> Forall good ts -> tmpl_tree f precs ts = Some t ->
+  (if Nat.eqb (length (map print3 ts)) (num_template_params f) then Some (sprintf f (operands_of (map print3 ts) precs))
+   else None) = Some (print3 t) /\ good t.
 Proof.
-  intros (Hc & s & Hs & Hw & Hp) G H. unfold tmpl_tree in H.
+  intros (Hc & s & Hs & Hw & Hp) Har G H. unfold tmpl_tree in H.
   destruct (Nat.eqb (length ts) (tmpl_arity f)) eqn:En; [|discriminate].
+  rewrite map_length, Har, En.
   apply Nat.eqb_eq in En. rewrite Hs, Hw in H. inversion H; subst t. clear H.
-  rewrite map_length.
-  assert (E : Nat.ltb (length ts) (count_sub t_pct_s f + count_sub t_pct_v f) = false) by (apply Nat.ltb_ge; lia).
-  rewrite E. rewrite operands_of_wraps by assumption.
-  split.
+  rewrite operands_of_wraps by assumption.
+  split; [f_equal|].
   - apply Hp. rewrite wraps_length. exact En.
   - unfold tmpl_shape in Hs. apply canon_spec in Hs. destruct Hs as [_ [_ Hlex]].
     apply (subst_good precs (wraps ts precs) (wraps_good _ _ G) (wraps_lvl ts precs) s Hw Hlex).
@@ -647,14 +675,18 @@ Qed.
 (* ---------------------------------------------------------------------------------------------- *)
 (* the table obligation: every entry of the regenerated callMigrators table is closed *)
 
-Definition entry_closed (e : text * cmig) : Prop :=
-  match snd e with
-  | AsIs => name_ok3 (fst e) = true
+Fixpoint cmig_closed (fname : text) (m : cmig) : Prop :=
+  match m with
+  | AsIs => name_ok3 fname = true
   | Rename n => name_ok3 n = true
-  | Template f precs => tmpl_closed f precs
+  | Template f precs => tmpl_closed f precs /\ num_template_params f = tmpl_arity f
   | Join sep p => exists o, join_op sep = Some o /\ p = prec o
   | Params n defaults pms => name_ok3 n = true
+  | DateDif => True
+  | Optional _ _ inner => cmig_closed fname inner
   end.
+
+Definition entry_closed (e : text * cmig) : Prop := cmig_closed (fst e) (snd e).
 
 Ltac solve_tmpl :=
   split; [vm_compute; repeat constructor |
@@ -665,9 +697,10 @@ Ltac solve_tmpl :=
       cbn; norm_app; rewrite ?app_nil_r; reflexivity]]].
 
 Ltac solve_entry :=
-  cbn [entry_closed snd fst];
+  unfold entry_closed; cbn [cmig_closed snd fst];
   first [ reflexivity
-        | solve_tmpl
+        | exact I
+        | (split; [solve_tmpl | vm_compute; reflexivity])
         | (eexists; split; [vm_compute; reflexivity | reflexivity]) ].
 
 Lemma templates_closed : Forall entry_closed legacy_table.
@@ -687,51 +720,118 @@ Qed.
 (* ---------------------------------------------------------------------------------------------- *)
 (* the intended tree of a call *)
 
+(* DATEDIF: the unit literal y / m / d in either case is written in upper case *)
+Definition unit_tree (u : e3) : e3 :=
+  let l := lower (print3 u) in
+  if text_eqb l [34; 121; 34] then X3Text [34; 89; 34]
+  else if text_eqb l [34; 109; 34] then X3Text [34; 77; 34]
+  else if text_eqb l [34; 100; 34] then X3Text [34; 68; 34]
+  else u.
+
+Definition datedif_trees (ts : list e3) : list e3 :=
+  match ts with
+  | [a; b; u] => [a; b; unit_tree u]
+  | _ => ts
+  end.
+
+Lemma unit_tree_ok u : good u -> print3 (unit_tree u) = datedif_unit (print3 u) /\ good (unit_tree u).
+Proof.
+  intros G. unfold unit_tree, datedif_unit.
+  destruct (text_eqb (lower (print3 u)) [34; 121; 34]); [split; [reflexivity | split; reflexivity]|].
+  destruct (text_eqb (lower (print3 u)) [34; 109; 34]); [split; [reflexivity | split; reflexivity]|].
+  destruct (text_eqb (lower (print3 u)) [34; 100; 34]); [split; [reflexivity | split; reflexivity]|].
+  split; [reflexivity | exact G].
+Qed.
+
+Lemma datedif_trees_ok ts : Forall good ts ->
+  map print3 (datedif_trees ts) = datedif_params (map print3 ts) /\ Forall good (datedif_trees ts).
+Proof.
+  intros G. destruct ts as [|a [|b [|u [|x r]]]]; try (split; [reflexivity | exact G]).
+  inversion G as [|? ? Ga G1]; subst. inversion G1 as [|? ? Gb G2]; subst. inversion G2 as [|? ? Gu G3]; subst.
+  destruct (unit_tree_ok u Gu) as [P Gt]. cbn [datedif_trees map datedif_params]. rewrite P.
+  split; [reflexivity | repeat (constructor; try assumption)].
+Qed.
+
+(* omitted optional parameters are filled in with the (canonically spelled) defaults *)
+Definition with_default_trees (required : nat) (defaults : list text) (ts : list e3) : option (list e3) :=
+  if Nat.leb required (length ts) && Nat.ltb (length ts) (required + length defaults)
+  then option_map (app ts) (all_some (map canon (skipn (length ts - required) defaults)))
+  else Some ts.
+
+Lemma with_default_trees_ok required defaults ts ts' : Forall good ts ->
+  with_default_trees required defaults ts = Some ts' ->
+  with_defaults required defaults (map print3 ts) = map print3 ts' /\ Forall good ts'.
+Proof.
+  intros G H. unfold with_default_trees in H. unfold with_defaults. rewrite map_length.
+  destruct (Nat.leb required (length ts) && Nat.ltb (length ts) (required + length defaults)).
+  - destruct (all_some (map canon (skipn (length ts - required) defaults))) as [ds|] eqn:Ea; [|discriminate].
+    cbn [option_map] in H. inversion H; subst ts'. destruct (all_some_canon _ _ Ea) as [E Gd].
+    rewrite E, map_app. split; [reflexivity | apply Forall_app; split; assumption].
+  - inversion H; subst ts'. split; [reflexivity | exact G].
+Qed.
+
+Fixpoint cmig_tree (m : cmig) (fname : text) (ts : list e3) : option e3 :=
+  match m with
+  | AsIs => Some (call3 fname ts)
+  | Rename n => Some (call3 n ts)
+  | Template f precs => tmpl_tree f precs ts
+  | Join sep p => match join_op sep with Some o => join_tree o ts | None => None end
+  | Params n defaults pms =>
+      if Nat.leb (length ts) (length pms) then option_map (call3 n) (params_tree pms ts defaults) else None
+  | DateDif => Some (call3 t_datetime_diff (datedif_trees ts))
+  | Optional required defaults inner =>
+      match with_default_trees required defaults ts with
+      | Some ts' => cmig_tree inner fname ts'
+      | None => None
+      end
+  end.
+
+Lemma cmig_ok : forall m fname ts t,
+  cmig_closed fname m -> Forall good ts -> cmig_tree m fname ts = Some t ->
+  migrate_cmig m fname (map print3 ts) = Some (print3 t) /\ good t.
+Proof.
+  induction m as [|n|f precs|sep p|n defaults pms| |required defaults inner IH]; intros fname ts t TC G H;
+    cbn [cmig_closed cmig_tree migrate_cmig] in *.
+  - inversion H; subst t. split; [rewrite print3_call3; reflexivity | apply good_call3; assumption].
+  - inversion H; subst t. split; [rewrite print3_call3; reflexivity | apply good_call3; assumption].
+  - destruct TC as [TC Har]. apply (tmpl_ok f precs ts t TC Har G H).
+  - destruct TC as (o & Ho & Hp). rewrite Ho in H. subst p.
+    destruct (join_ok sep o ts t Ho G H) as [P Gt]. destruct ts as [|t0 r]; [discriminate|].
+    cbn [map]. cbn [map] in P. rewrite P. split; [reflexivity | exact Gt].
+  - rewrite map_length. destruct (Nat.leb (length ts) (length pms)) eqn:E; [|discriminate].
+    apply Nat.leb_le in E.
+    assert (E' : Nat.ltb (length pms) (length ts) = false) by (apply Nat.ltb_ge; exact E). rewrite E'.
+    destruct (params_tree pms ts defaults) as [ps|] eqn:Ep; [|discriminate].
+    cbn [option_map] in H. inversion H; subst t.
+    destruct (params_tree_ok _ _ _ _ G Ep) as [P Gp].
+    rewrite P. split; [rewrite print3_call3; reflexivity | apply good_call3; assumption].
+  - inversion H; subst t. destruct (datedif_trees_ok ts G) as [P Gd].
+    split; [rewrite print3_call3, P; reflexivity | apply good_call3; [reflexivity | exact Gd]].
+  - destruct (with_default_trees required defaults ts) as [ts'|] eqn:Ew; [|discriminate].
+    destruct (with_default_trees_ok _ _ _ _ G Ew) as [P G']. rewrite P. apply IH; assumption.
+Qed.
+
 Definition call_tree (fname : text) (ts : list e3) : option e3 :=
   match lookup fname legacy_table with
   | None => if name_ok3 fname then Some (call3 fname ts) else None
-  | Some AsIs => Some (call3 fname ts)
-  | Some (Rename n) => Some (call3 n ts)
-  | Some (Template f precs) => tmpl_tree f precs ts
-  | Some (Join sep p) => match join_op sep with Some o => join_tree o ts | None => None end
-  | Some (Params n defaults pms) =>
-      if Nat.leb (length ts) (length pms) then option_map (call3 n) (params_tree pms ts defaults) else None
+  | Some m => cmig_tree m fname ts
   end.
 
 Lemma call_ok fname ts t :
   Forall good ts -> call_tree fname ts = Some t ->
-  migrate_call fname (map print3 ts) = print3 t /\ good t.
+  migrate_call fname (map print3 ts) = Some (print3 t) /\ good t.
 Proof.
   intros G H. unfold call_tree in H. unfold migrate_call, migrate_call_with.
   destruct (lookup fname legacy_table) as [m|] eqn:El.
   - destruct (lookup_In _ _ _ El) as (k' & Hin & Hk). subst k'.
     pose proof templates_closed as TC. rewrite Forall_forall in TC. specialize (TC _ Hin).
-    unfold entry_closed in TC. cbn [fst snd] in TC.
-    destruct m as [|n|f precs|sep p|n defaults pms].
-    + inversion H; subst t. split; [symmetry; apply print3_call3 | apply good_call3; assumption].
-    + inversion H; subst t. split; [symmetry; apply print3_call3 | apply good_call3; assumption].
-    + apply (tmpl_ok f precs ts t TC G H).
-    + destruct TC as (o & Ho & Hp). rewrite Ho in H. subst p. apply (join_ok sep o ts t Ho G H).
-    + rewrite map_length. destruct (Nat.leb (length ts) (length pms)) eqn:E; [|discriminate].
-      apply Nat.leb_le in E.
-      assert (E' : Nat.ltb (length pms) (length ts) = false) by (apply Nat.ltb_ge; exact E). rewrite E'.
-      destruct (params_tree pms ts defaults) as [ps|] eqn:Ep; [|discriminate].
-      cbn [option_map] in H. inversion H; subst t.
-      destruct (params_tree_ok _ _ _ _ G Ep) as [P Gp].
-      rewrite P. split; [symmetry; apply print3_call3 | apply good_call3; assumption].
+    unfold entry_closed in TC. cbn [fst snd] in TC. apply cmig_ok; assumption.
   - destruct (name_ok3 fname) eqn:En; [|discriminate]. inversion H; subst t.
-    split; [symmetry; apply print3_call3 | apply good_call3; assumption].
+    split; [rewrite print3_call3; reflexivity | apply good_call3; assumption].
 Qed.
 
 (* ---------------------------------------------------------------------------------------------- *)
 (* the intended tree of a legacy expression, and the main lemma *)
-
-Fixpoint all_some {A} (l : list (option A)) : option (list A) :=
-  match l with
-  | [] => Some []
-  | Some x :: r => match all_some r with Some xs => Some (x :: xs) | None => None end
-  | None :: _ => None
-  end.
 
 Section Main.
   Variable ctxmap : text -> text.
